@@ -128,6 +128,24 @@ fn c22_block_on_then_export() -> Vec<TaskDef> {
     ]
 }
 
+/// A foreign C-ABI client whose completion callback re-enters the task's
+/// `waitable_register` / `waitable_unregister`.
+fn cabi_client_task(kind: TaskKind, initial: u32, budget: u32) -> TaskDef {
+    TaskDef { kind, body: Box::new(move || Tracked::boxed(KIND_ROOT, Box::pin(crate::cabi_client::ClientFut::new(initial, budget)))) }
+}
+fn c22_cabi_client_reentrant() -> Vec<TaskDef> {
+    vec![cabi_client_task(TaskKind::Export, 2, 2)]
+}
+fn c22_cabi_client_reentrant_three() -> Vec<TaskDef> {
+    vec![cabi_client_task(TaskKind::Export, 3, 1)]
+}
+fn c22_cabi_client_reentrant_block_on() -> Vec<TaskDef> {
+    vec![cabi_client_task(TaskKind::BlockOn, 2, 2)]
+}
+fn c22_cabi_client_reentrant_two_tasks() -> Vec<TaskDef> {
+    vec![cabi_client_task(TaskKind::Export, 2, 1), prog_task(TaskKind::Export, &[Step::Finish, Step::Yield, IMPORT_A, Step::Read], 3, &[], 0)]
+}
+
 // =============================================================================== C23
 
 /// Task body that sleeps on the Rust-level channel.
@@ -407,6 +425,12 @@ pub fn all() -> Vec<Scenario> {
     v.push(scn!(c22_block_on_yield_first, C22, cfg_plain()));
     v.push(scn!(c22_block_on_mix, C22, cfg_plain()));
     v.push(scn!(c22_block_on_then_export, C22, cfg_cancel()));
+    // last: a panic inside the runtime's `extern "C"` entry points ends the process
+    v.push(scn!(c22_cabi_client_reentrant, C22, cfg_plain()));
+    v.push(Scenario { name: "c22_cabi_client_reentrant_cancel", props: C22, cfg: cfg_cancel(), build: c22_cabi_client_reentrant, thorough_only: false });
+    v.push(scn!(c22_cabi_client_reentrant_three, C22, cfg_cancel()));
+    v.push(scn!(c22_cabi_client_reentrant_two_tasks, C22, cfg_cancel()));
+    v.push(scn!(c22_cabi_client_reentrant_block_on, C22, cfg_plain()));
 
     #[cfg(feature = "inter-task-wakeup")]
     {
